@@ -5,6 +5,9 @@ import Circomspect.Spec.Strip
 import Circomspect.Model.Curve
 import Circomspect.Model.Runner
 import Circomspect.Model.Dominators
+import Circomspect.Model.CfgLift
+import Circomspect.Spec.Cfg
+import Driver.Sexp
 
 namespace Driver
 open Circomspect
@@ -178,7 +181,79 @@ def domCmd (spec : Bool) (args : List String) : String :=
         ";".intercalate ((List.range n).map row)
   | _ => "bad-op"
 
+open Sexp in
+def locOf (m : Sexp) : CfgLift.Loc :=
+  match m with
+  | .list (_ :: a :: b :: _) => ((nat? a).getD 0, (nat? b).getD 0)
+  | _ => (0, 0)
+
+open Sexp in
+partial def astSkel (s : Sexp) : CfgLift.Stmt :=
+  match s with
+  | .list (.atom "ite" :: m :: _ :: t :: e :: _) =>
+    (match e with | .atom _ => .ite (locOf m) (astSkel t) | e => .iteElse (locOf m) (astSkel t) (astSkel e))
+  | .list (.atom "while" :: m :: _ :: b :: _) => .while (locOf m) (astSkel b)
+  | .list (.atom "blk" :: _ :: .list cs :: _) => .block (CfgLift.Stmts.ofList (cs.map astSkel))
+  | .list (.atom "init" :: _ :: _ :: .list cs :: _) => .init (CfgLift.Stmts.ofList (cs.map astSkel))
+  | .list (_ :: m :: _) => .simple (locOf m)
+  | _ => .simple (0, 0)
+
+/-- body of `(def kind name (args) argloc body)` -/
+def defBody (s : Sexp) : Option Sexp :=
+  match s with
+  | .list [.atom "def", _, _, _, _, body] => some body
+  | _ => none
+
+open Sexp in
+def irSkel (st : Sexp) : CfgLift.IStmt :=
+  match st with
+  | .list (.atom "st" :: .list (.atom "if" :: m :: _ :: t :: f :: _) :: _) =>
+    .branch (locOf m) ((nat? t).getD 0) (nat? f)
+  | .list (.atom "st" :: .list (_ :: m :: _) :: _) => .simple (locOf m)
+  | _ => .simple (0, 0)
+
+open Sexp in
+def cfgSkel (c : Sexp) : List CfgLift.Block :=
+  match c with
+  | .list (.atom "cfg" :: _ :: _ :: _ :: _ :: .list bs :: _) =>
+    bs.map (fun b => match b with
+      | .list [.atom "b", _, d, .list ps, .list ss, .list sts] =>
+        { depth := (nat? d).getD 0, stmts := sts.map irSkel, preds := ps.filterMap nat?, succs := ss.filterMap nat? }
+      | _ => default)
+  | _ => []
+
+def showIStmt : CfgLift.IStmt → String
+  | .simple l => s!"s{l.1}-{l.2}"
+  | .branch l t f => s!"i{l.1}-{l.2}:{t}:{match f with | some f => toString f | none => "-"}"
+
+def showBlocks (bs : List CfgLift.Block) : String :=
+  "|".intercalate (bs.map (fun b => s!"{b.depth};{showCsv b.preds};{showCsv b.succs};{",".intercalate (b.stmts.map showIStmt)}"))
+
+def cfgliftCmd (rest : String) : String :=
+  match Sexp.parse rest with
+  | none => "bad-op"
+  | some s =>
+    match defBody s with
+    | none => "bad-op"
+    | some body =>
+      match CfgLift.lift (astSkel body) with
+      | .ok bs _ => "ok " ++ showBlocks bs
+      | .panic m => "panic " ++ m
+
+/-- `wfcheck (pair <ast def> <cfg>)` -/
+def wfcheckCmd (rest : String) : String :=
+  match Sexp.parse rest with
+  | some (.list [.atom "pair", a, c]) =>
+    match defBody a with
+    | none => "bad-op"
+    | some body =>
+      let ps := CfgSpec.wfProblems (astSkel body) (cfgSkel c)
+      if ps.isEmpty then "wf" else "not-wf " ++ "; ".intercalate ps
+  | _ => "bad-op"
+
 def handle (line : String) : String :=
+  if line.startsWith "cfglift " then cfgliftCmd (line.drop 8).toString else
+  if line.startsWith "wfcheck " then wfcheckCmd (line.drop 8).toString else
   match line.splitOn " " with
   | "field" :: args => fieldCmd args
   | "fieldspec" :: args => fieldSpecCmd args
